@@ -26,6 +26,8 @@ import (
 	capabilitytypes "github.com/cosmos/cosmos-sdk/x/capability/types"
 	channeltypes "github.com/cosmos/ibc-go/v7/modules/core/04-channel/types"
 
+	"github.com/bandprotocol/bandchain-packet/obi"
+	"github.com/bandprotocol/bandchain-packet/packet"
 	codectypes "github.com/cosmos/cosmos-sdk/codec/types"
 	"github.com/cosmos/gogoproto/proto"
 	sdk "github.com/cosmos/cosmos-sdk/types"
@@ -293,6 +295,10 @@ func c12Preconditions(t *testing.T, tr *Trace, w *c12World) {
 			deposited(5000, 6000)(ctx)
 			w.app.EsmKeeper.SetESMStatus(ctx, esmtypes.ESMStatus{AppId: w.appGov, Executor: w.B.String(), Status: true, StartTime: ctx.BlockTime(), EndTime: ctx.BlockTime().Add(3600e9)})
 		}, &esmtypes.MsgExecuteESM{AppId: w.appGov, Depositor: w.A.String()}},
+		{"esm.MsgKillSwitch", "admin-unknown-app", "reject", nil, &esmtypes.MsgKillRequest{From: w.admin.String(), KillSwitchParams: &esmtypes.KillSwitchParams{AppId: 999, BreakerEnable: true}}},
+		{"esm.MsgKillSwitch", "stranger-disables-an-enabled-breaker", "reject", func(ctx sdk.Context) {
+			_ = w.app.EsmKeeper.SetKillSwitchData(ctx, esmtypes.KillSwitchParams{AppId: w.appVault, BreakerEnable: true})
+		}, &esmtypes.MsgKillRequest{From: w.B.String(), KillSwitchParams: &esmtypes.KillSwitchParams{AppId: w.appVault, BreakerEnable: false}}},
 		// rewards: external reward programmes are paid by the signer
 		{"rewards.ExternalRewardsLockers", "unfunded", "reject", nil, &rewardstypes.ActivateExternalRewardsLockers{AppMappingId: w.appVault, AssetId: w.a2,
 			TotalRewards: sdk.NewCoin("uasset3", sdk.NewInt(1000000)), DurationDays: 3, Depositor: w.C.String(), MinLockupTimeSeconds: 10}},
@@ -368,9 +374,41 @@ func c12Ibc(t *testing.T, tr *Trace, w *c12World) {
 	})
 	// a packet on a channel that is not the configured source channel of the price request
 	fp := w.app.BandoracleKeeper.GetFetchPriceMsg(w.ctx)
+	if fp.SourceChannel == "" { // no price request configured in the world: configure one on the cells' parent
+		fp.SourceChannel = "channel-1"
+	}
+	valid := func() []byte {
+		res := obi.MustEncode(bandtypes.FetchPriceResult{Rates: []uint64{1234567, 7654321}})
+		resp := packet.OracleResponsePacketData{ClientID: bandtypes.FetchPriceClientIDKey, RequestID: 77, AnsCount: 1, RequestTime: 1, ResolveTime: 1, ResolveStatus: 1, Result: res}
+		return bandtypes.ModuleCdc.MustMarshalJSON(&resp)
+	}()
+	withReq := func(ctx sdk.Context) { w.app.BandoracleKeeper.SetFetchPriceMsg(ctx, bandtypes.MsgFetchPriceData{Creator: w.B.String(), SourceChannel: fp.SourceChannel, OracleScriptID: 112, ClientID: bandtypes.FetchPriceClientIDKey, TwaBatchSize: 30}) }
 	pkt := func(ch string, data []byte) channeltypes.Packet {
 		return channeltypes.Packet{Sequence: 1, SourcePort: "oracle", SourceChannel: "channel-7", DestinationPort: port, DestinationChannel: ch, Data: data}
 	}
+	// a VALID price result arriving on a channel that is not the configured one must not be stored
+	run("OnRecvPacket", "valid-result-foreign-channel", "reject", func(ctx sdk.Context) error {
+		withReq(ctx)
+		ack := im.OnRecvPacket(ctx, pkt(fp.SourceChannel+"9", valid), w.C)
+		if _, err := w.app.BandoracleKeeper.GetFetchPriceResult(ctx, bandtypes.OracleRequestID(77)); err == nil {
+			return nil // stored: reported as accepted
+		}
+		if ack == nil || ack.Success() {
+			return nil
+		}
+		return fmt.Errorf("error acknowledgement")
+	})
+	run("OnRecvPacket", "valid-result-own-channel", "accept", func(ctx sdk.Context) error {
+		withReq(ctx)
+		ack := im.OnRecvPacket(ctx, pkt(fp.SourceChannel, valid), w.C)
+		if _, err := w.app.BandoracleKeeper.GetFetchPriceResult(ctx, bandtypes.OracleRequestID(77)); err != nil {
+			return fmt.Errorf("result not stored: %v", err)
+		}
+		if ack != nil && !ack.Success() {
+			return fmt.Errorf("error acknowledgement")
+		}
+		return nil
+	})
 	run("OnRecvPacket", "foreign-channel", "reject", func(ctx sdk.Context) error {
 		ack := im.OnRecvPacket(ctx, pkt(fp.SourceChannel+"-x", []byte(`{"client_id":"fetch_price_id","request_id":"7","result":"AAAA"}`)), w.C)
 		if ack == nil || ack.Success() {
